@@ -14,6 +14,7 @@ import (
 	"fmt"
 	"os"
 	"path/filepath"
+	"strconv"
 	"strings"
 
 	"ariga.io/atlas/sql/migrate"
@@ -210,7 +211,7 @@ func main() {
 		{name: "sqlite", eval: func(b []byte, v any, _ map[string]any) error { return sqlite.EvalHCLBytes(b, v, nil) }, plan: sqlite.DefaultPlan, scan: (&sqlite.Driver{}).ScanStmts,
 			intT: "integer", strT: "text"},
 	}
-	kinds := []string{"tname", "cname", "iname", "fkname", "dflt", "ccomment", "tcomment", "enum", "check"}
+	kinds := []string{"tname", "cname", "iname", "fkname", "dflt", "dflt_dq", "ccomment", "tcomment", "enum", "check"}
 	root, err := os.MkdirTemp(os.Getenv("VERIF_SCRATCH"), "rt")
 	if err != nil {
 		panic(err)
@@ -236,7 +237,7 @@ func main() {
 		content := cb.String()
 		for _, d := range dialects {
 			for _, kind := range kinds {
-				if kind == "enum" && d.enumT == nil || d.name == "sqlite" && (kind == "ccomment" || kind == "tcomment") {
+				if kind == "enum" && d.enumT == nil || d.name == "sqlite" && (kind == "ccomment" || kind == "tcomment") || kind == "dflt_dq" && d.name != "sqlite" {
 					continue
 				}
 				if maxCases > 0 && ncase >= maxCases {
@@ -251,6 +252,16 @@ func main() {
 					skipped++
 					evalErr[d.name+":"+kind]++
 					continue
+				}
+				if kind == "dflt_dq" {
+					// the form SQLite inspection reports for a column declared DEFAULT "...": a double-quoted literal
+					for _, sc := range realm.Schemas {
+						for _, t := range sc.Tables {
+							if c, ok := t.Column("title"); ok {
+								c.Default = &schema.Literal{V: strconv.Quote(content)}
+							}
+						}
+					}
 				}
 				var changes []schema.Change
 				for _, s := range realm.Schemas {
